@@ -325,6 +325,7 @@ func runC10API(c *core.Ctx) {
 		d.S.Settle()
 	}
 	lc, rc := c20Cands(A, 0) // fetched before the loop is parked (the getters go through the loop)
+	aLocals, bLocals := A.LocalCands(), B.LocalCands()
 	// park the loop: block A's sockets and let the next tick run into them
 	var socks []*simnet.Sock
 	for _, s := range d.W.Sockets() {
@@ -387,13 +388,42 @@ func runC10API(c *core.Ctx) {
 		{name: "Conn.BytesSent", lockFree: true, f: func() error { _ = A.Conn.BytesSent(); _ = A.Conn.BytesReceived(); return nil }},
 		{name: "OnCandidate", lockFree: true, f: func() error { return nil }},
 		{name: "AddRemoteCandidate", lockFree: true, f: func() error { return A.A.AddRemoteCandidate(remote) }}, // documented asynchronous
+		// Restart tears the candidates down on the loop and waits for their receive loops; a receive loop that
+		// is itself waiting for the loop (it just read application data, see below) must give way
+		{name: "Restart", f: func() error { return A.A.Restart("", "") }},
 	}
 	which := c.T.Choose(len(calls), "whichcall") // one method per run, so that an effect is attributable
 	active := []*c10Call{calls[which]}
 	c.Knob("method", calls[which].name)
-	for _, cl := range active {
-		cl := cl
+	if calls[which].name == "Restart" {
+		// application data (the first datagram from that remote on this socket) arrives while the loop is
+		// parked: the candidate's receive loop queues up behind the loop, in front of or behind the Restart
+		dataFirst := c.T.Bias(1, 2, "data-before-restart")
+		inject := func() {
+			for _, lcand := range aLocals {
+				for _, rcand := range bLocals {
+					dg := d.W.Inject(rig.CandAP(rcand), rig.CandAP(lcand), []byte("\x40first-application-datagram"), "app-data")
+					d.W.Deliver(dg)
+				}
+			}
+			synctest.Wait()
+			c.Fault("application-data-queued-behind-parked-loop")
+		}
+		if dataFirst {
+			inject()
+		}
+		cl := active[0]
 		go func() { cl.err = cl.f(); cl.done.Store(true) }()
+		synctest.Wait()
+		if !dataFirst {
+			inject()
+		}
+		inflight = len(d.W.InFlight())
+	} else {
+		for _, cl := range active {
+			cl := cl
+			go func() { cl.err = cl.f(); cl.done.Store(true) }()
+		}
 	}
 	time.Sleep(time.Millisecond)
 	synctest.Wait()
@@ -469,6 +499,12 @@ func runC10OneShot(c *core.Ctx) {
 		})
 	}()
 	<-busy
+	if c.T.Bias(1, 4, "getter-aliasing") {
+		close(release)
+		synctest.Wait()
+		c10GetterAliasing(c, ag)
+		return
+	}
 	if c.T.Bias(1, 3, "gather-then-restart") {
 		// GatherCandidates, then Restart, queued in this order behind the busy loop: the outcome must be that of
 		// the two whole operations one after the other - the cycle the first one started is cancelled by the
@@ -569,4 +605,75 @@ func runC10OneShot(c *core.Ctx) {
 		c.Failf("C10/overlapping-starts-not-serialised", "%d of %d overlapping calls succeeded (exactly one must, the others must see its effect): %s", ok, n, names)
 	}
 	c.Probe(fmt.Sprintf("one-shot-kind-%d", kind))
+}
+
+// c10GetterAliasing: what a getter returned is a value of its own. Later operations of the agent must not
+// rewrite it, and what the caller does with it (append, overwrite) must not reach the agent's state - both
+// would be accesses to loop-owned memory from a foreign goroutine, and the agent would "observe" a state no
+// operation produced.
+func c10GetterAliasing(c *core.Ctx, ag *rig.AgentH) {
+	mk := func(ip string, port int) ice.Candidate {
+		cand, err := ice.NewCandidateHost(&ice.CandidateHostConfig{Network: "udp", Address: ip, Port: port, Component: 1})
+		if err != nil {
+			c.Failf("harness/candidate", "%v", err)
+		}
+		return cand
+	}
+	n0 := c.T.Range(1, 4, "nremote")
+	for i := 0; i < n0 && !c.Failed(); i++ {
+		_ = ag.A.AddRemoteCandidate(mk("10.0.9.1", 6000+i))
+	}
+	synctest.Wait()
+	got, err := ag.A.GetRemoteCandidates()
+	if err != nil || len(got) != n0 {
+		c.Failf("harness/getter", "GetRemoteCandidates: %d candidates, err=%v", len(got), err)
+		return
+	}
+	snapshot := append([]ice.Candidate(nil), got...)
+	// the agent goes on: more candidates arrive
+	n1 := c.T.Range(1, 3, "nmore")
+	var later []ice.Candidate
+	for i := 0; i < n1; i++ {
+		cand := mk("10.0.9.2", 7000+i)
+		later = append(later, cand)
+		_ = ag.A.AddRemoteCandidate(cand)
+	}
+	synctest.Wait()
+	// the caller uses its slice: appends its own element (full capacity expression is NOT used on purpose:
+	// a slice handed out by an API is the caller's to append to)
+	foreign := mk("192.0.2.200", 9999)
+	mine := append(got, foreign)
+	_ = mine
+	for i := range snapshot {
+		if got[i] != snapshot[i] {
+			c.Failf("C10/getter-result-rewritten", "element %d of the slice GetRemoteCandidates returned earlier changed from %s to %s after later AddRemoteCandidate calls", i, snapshot[i], got[i])
+			return
+		}
+	}
+	now, err := ag.A.GetRemoteCandidates()
+	if err != nil {
+		return
+	}
+	have := map[string]bool{}
+	for _, r := range now {
+		have[rig.CandAddr(r)] = true
+		if r == foreign {
+			c.Failf("C10/caller-append-reached-agent-state", "a candidate the caller appended to the slice returned by GetRemoteCandidates is now part of the agent's remote candidates: %s", r)
+			return
+		}
+	}
+	for _, l := range later {
+		if !have[rig.CandAddr(l)] {
+			c.Failf("C10/caller-append-reached-agent-state", "remote candidate %s, accepted by AddRemoteCandidate, is gone after the caller appended to an earlier getter result (%d listed)", l, len(now))
+			return
+		}
+	}
+	// same for local candidates and stats: the results are fresh values
+	l1, _ := ag.A.GetLocalCandidates()
+	l2, _ := ag.A.GetLocalCandidates()
+	if len(l1) > 0 && len(l2) > 0 && &l1[0] == &l2[0] {
+		c.Failf("C10/getter-returns-shared-slice", "two GetLocalCandidates calls returned the same backing array")
+		return
+	}
+	c.Probe("getter-aliasing-checked")
 }
